@@ -109,9 +109,11 @@ def run(repo, rep):
     gen = None
     seqp, sizep = chunks.params[0], chunks.params[1]
     locs: Dict[str, str] = {}
+    loc_nodes: Dict[str, ast.expr] = {}
     for st in chunks.node.body:
         if isinstance(st, ast.Assign) and isinstance(st.targets[0], ast.Name):
             locs[st.targets[0].id] = norm(st.value)
+            loc_nodes[st.targets[0].id] = st.value
     for n in ast.walk(chunks.node):
         if isinstance(n, ast.GeneratorExp) and len(n.generators) == 1 and isinstance(n.elt, ast.Tuple) and len(n.elt.elts) == 2:
             gen = (n.generators[0].target, n.generators[0].iter, n.elt.elts[0], n.elt.elts[1])
@@ -122,6 +124,8 @@ def run(repo, rep):
     if gen is None:
         raise AnalysisError('%s: chunks() is neither a generator expression nor a for/yield over range' % chunks.loc())
     tgt, it, sl, flag = gen
+    if isinstance(it, ast.Name) and it.id in loc_nodes:
+        it = loc_nodes[it.id]      # ``positions = range(...)`` bound before the loop
 
     def res(e):
         t = norm(e)
@@ -313,6 +317,17 @@ def run(repo, rep):
                 except SyntaxError:
                     de = None
                 okdv = False
+                # struct.pack(fmt, bit) + item, or S.pack(bit) + item with S a struct.Struct constant
+                if isinstance(de, ast.BinOp) and isinstance(de.op, ast.Add) and isinstance(de.left, ast.Call) \
+                        and isinstance(de.left.func, ast.Attribute) and de.left.func.attr == 'pack' \
+                        and norm(de.left.func) != 'struct.pack' and len(de.left.args) == 1:
+                    from ..srcmodel import StructVal as _SV
+                    sv_ = repo.try_fold(de.left.func.value, enc.module, enc.cls)
+                    if isinstance(sv_, _SV):
+                        de = ast.BinOp(left=ast.Call(func=ast.parse('struct.pack', mode='eval').body,
+                                                     args=[ast.Constant(value=sv_.fmt), de.left.args[0]], keywords=[]),
+                                       op=ast.Add(), right=de.right)
+                        ast.fix_missing_locations(de)
                 if isinstance(de, ast.BinOp) and isinstance(de.op, ast.Add) and isinstance(de.left, ast.Call) \
                         and norm(de.left.func) == 'struct.pack' and len(de.left.args) == 2 and isinstance(de.left.args[0], ast.Constant):
                     fmt = de.left.args[0].value
